@@ -259,6 +259,26 @@ Example C13_findfile_ex :
   has_slash s_foo = false /\ has_suffix s_foo DOT_YANG = false.
 Proof. vm_compute. repeat split; reflexivity. Qed.
 
+(* The current directory as an element of the search path (named there as ".", "./" ..., or appended by an earlier
+   Read of a file of the working directory, Model/File.v [Read]): asking for the FILE name.yang then finds a file
+   whenever asking for the module name does -- the dated candidates of the current directory are reached through
+   its path element, the only place where a file-name lookup sees them. *)
+Theorem C13_findfile_file_name_here : forall cwd path name,
+  has_slash name = false -> has_suffix name DOT_YANG = false ->
+  In (Some cwd, false) path ->
+  findFile cwd path name <> Err -> findFile cwd path (name ++ DOT_YANG) <> Err.
+Proof. exact findFile_file_name_here. Qed.
+
+Example C13_findfile_file_name_here_ex :
+  let cwd := Dir [] [File s_2019; File s_2020] in
+  findFile cwd [(Some cwd, false)] (s_foo ++ DOT_YANG) = Ok (Found 1 [s_2020]) /\
+  findFile cwd [] (s_foo ++ DOT_YANG) = Err /\
+  findFile cwd [] s_foo = Ok (Found 0 [s_2020]) /\
+  Read_all (Dir [] [Dir [99]%N [File s_2019; File s_2020; File ([97]%N ++ DOT_YANG)]]) [[99]%N]
+           (MState [] false []) [[97]%N ++ DOT_YANG; s_foo ++ DOT_YANG; s_foo ++ DOT_YANG]
+  = [Ok [[99]%N; [97]%N ++ DOT_YANG]; Ok [[99]%N; s_2020]; Err].
+Proof. vm_compute. repeat split; reflexivity. Qed.
+
 (* ============================ (c) include = inline (core model) ====================== *)
 (* On the core resolver model (Model/Schema.v: module_dir with the mergedSubmodule bookkeeping,
    find_grouping_mod's include walk, to_entry, module_entry).  [unsplit SC m] moves the body
